@@ -24,7 +24,7 @@ SPECIALS = ['quo"te', "ap'os", 'a<b', 'a&b', 'a>b', 'tab\there', 'nl\nhere', 'eÌ
 # normalisation would fold some of them, about which no property speaks)
 ATTR_SPECIALS = ['c1\x96ctl', 'nel\x85x', 'ls\u2028ps\u2029x', 'nb\xa0sp', 'zw\u200bsp',
                  '\x7fdel', 'pua\ue000', 'x\ufffdy']
-PLAIN = ['x', 'Ab c', 'foo', 'bar baz', 'lorem', 'ipsum dolor', 'N', 'v2', 'alpha', 'beta']
+PLAIN = ['007', '1.50', '+1', '1e3', 'x', 'Ab c', 'foo', 'bar baz', 'lorem', 'ipsum dolor', 'N', 'v2', 'alpha', 'beta']
 
 VOCAB = ['cat', 'Cat', 'CAT', 'chat', 'rÃ©sumÃ©', 'resume', 'Resume', 'dog', 'Hund',
          'çŠ¬', 'ad hoc', 'ad-hoc', 'san josÃ©', 'San Jose', 'run', 'ran', 'runs',
@@ -38,12 +38,13 @@ HYPER_RELS = ['hypernym', 'hypernym', 'hypernym', 'instance_hypernym']
 SENSE_RELS = ['antonym', 'derivation', 'pertainym', 'also', 'similar', 'other', 'x-sense']
 SENSE_SYNSET_RELS = ['domain_topic', 'domain_region', 'exemplifies', 'other', 'x-ss']
 SCRIPTS = ['Latn', 'Hira', 'Kana', 'Cyrl']
-LEXFILES = ['noun.animal', 'noun.cognition', 'verb.motion', 'adj.all', 'x.file']
+LEXFILES = ['noun.animal', 'noun.Animal', 'noun.cognition', 'verb.motion', 'adj.all', 'x.file',
+            'noun.Tops', 'noun.tops']
 TAG_CATS = ['tense', 'number', 'penn', 'x']
 ILI_POOL = ['i%d' % i for i in range(1, 13)]
 ILI_STATUSES = ['active', 'provisional', 'deprecated', 'other-status']
 LEX_IDS = ['a', 'ab', 'a-b', 'zz', 'b', 'abc', 'c\u0327a']   # last one: not NFC-stable
-VERSIONS = ['1', '1.0', '2', '1.0+x', '2020-rc.1', '10']
+VERSIONS = ['1', '1.0', '2', '1.0+x', '2020-rc.1', '10', '1:2.0']   # last: epoch-style
 LANGS = ['en', 'es', 'en-GB', 'ja']
 FRAMES = ['Somebody ----s', 'Somebody ----s something', 'Something ----s',
           'It is ----ing', 'Somebody ----s somebody PP', 'ã‚ã‚‹äººãŒ----']
@@ -245,6 +246,9 @@ class Gen:
             s['examples'].append(self.example())
         for _ in range(self.rng.choice([0, 0, 1, 2])):
             s['counts'].append(self.count())
+        if ge11 and self.chance(0.15):
+            # attributes of the format that wn does not interpret must not matter
+            s['n'] = self.rng.choice([1, 2, 3, 5, 9])
         return s
 
     def new_entry(self, eid, ge11, fidprefix):
@@ -534,6 +538,10 @@ def generate(rng: random.Random, profile: Profile | None = None) -> dict:
         nver = 2 if g.chance(p['p_second_version']) else 1
         if nver == 2 and g.chance(0.3):
             nver = 3
+        if nver >= 2 and g.chance(p.get('p_space_version', 0.0)):
+            # a release and its beta: a version with a space cannot be written as a
+            # specifier, but objects obtained otherwise must still work
+            vers[1] = vers[0] + ' beta'
         for ver in vers[:nver]:
             lmfv = rng.choice(p['lmf_versions'])
             ge11 = lmfv != '1.0'
@@ -622,7 +630,8 @@ def generate(rng: random.Random, profile: Profile | None = None) -> dict:
                     ['def of %s (%d)' % (ili, i), 'x', '', '"quoted" start of %s' % ili,
                      'a "b" c; d', "it's <b> & co", 'trailing quote"', 'Ã©tÃ© çŒ«  two  spaces',
                      ' lead space', '\\N', 'NULL', 'ls\u2028ps\u2029 inside', 'nel\x85 c1\x96',
-                     'vt\x0bff\x0cfs\x1c', 'nb\xa0sp'])
+                     'vt\x0bff\x0cfs\x1c', 'nb\xa0sp', '007', '1.50', '+1', ' 12 ', '.5', '1e2',
+                     '0x10', '-0'])
             rows.append(row)
         cols = ['ili']
         if any('status' in r for r in rows):
